@@ -194,5 +194,718 @@ theorem rosStep_eq (r : RState α) :
   rw [rosStep_eq_raw, rosAttemptRaw_eq, status_bne_running]
   by_cases h : (rosPrologue o cs s p kc timeStep r).status = .running <;> simp [h]
 
+/-! ### `stagesGo`: one stage, and the counters it touches -/
+
+/-- forcing re-evaluation part of stage `stage` -/
+def stagePre (Y : Mat α) (stage : Nat) (K : Array (Mat α)) (ynew : Mat α) (st : Stats) :
+    Array (Mat α) × Mat α × Stats :=
+  if stage = 0 then (K, ynew, st)
+  else if p.newF.getD stage false then
+    let ynew := (List.range stage).foldl
+      (fun yn j => axpyM (rd p.a (stage * (stage - 1) / 2 + j)) (K.getD j #[]) yn) Y
+    (K.setIfInBounds stage (s.forcing kc ynew (fillM (K.getD stage #[]) 0)), ynew,
+      { st with functionCalls := st.functionCalls + 1 })
+  else (K, ynew, st)
+
+/-- `K[stage+1].Copy(K[stage])` when the next stage re-uses the function value -/
+def stageCopy (stage : Nat) (K : Array (Mat α)) : Array (Mat α) :=
+  if stage + 1 < p.stages && !(p.newF.getD (stage + 1) false)
+  then K.setIfInBounds (stage + 1) (K.getD stage #[]) else K
+
+/-- the right-hand side handed to `linSolve` in stage `stage` -/
+def stageRhs (h : α) (stage : Nat) (K : Array (Mat α)) : Mat α :=
+  (List.range stage).foldl
+    (fun ks j => axpyM (rd p.c (stage * (stage - 1) / 2 + j) / h) (K.getD j #[]) ks) (K.getD stage #[])
+
+theorem stagesGo_succ (Y J Lo Up : Mat α) (h : α) (n stage : Nat) (K : Array (Mat α)) (ynew : Mat α)
+    (st : Stats) :
+    stagesGo s p kc Y J Lo Up h (n + 1) stage K ynew st =
+      stagesGo s p kc Y J Lo Up h n (stage + 1)
+        ((stageCopy p stage (stagePre s p kc Y stage K ynew st).1).setIfInBounds stage
+          (s.linSolve J Lo Up (stageRhs p h stage (stageCopy p stage (stagePre s p kc Y stage K ynew st).1))))
+        (stagePre s p kc Y stage K ynew st).2.1
+        { (stagePre s p kc Y stage K ynew st).2.2 with
+          solves := (stagePre s p kc Y stage K ynew st).2.2.solves + 1 } := rfl
+
+theorem stagePre_stats (Y : Mat α) (stage : Nat) (K : Array (Mat α)) (ynew : Mat α) (st : Stats) :
+    (stagePre s p kc Y stage K ynew st).2.2.solves = st.solves ∧
+    (stagePre s p kc Y stage K ynew st).2.2.decompositions = st.decompositions ∧
+    (stagePre s p kc Y stage K ynew st).2.2.numberOfSteps = st.numberOfSteps ∧
+    (stagePre s p kc Y stage K ynew st).2.2.accepted = st.accepted ∧
+    (stagePre s p kc Y stage K ynew st).2.2.rejected = st.rejected ∧
+    (stagePre s p kc Y stage K ynew st).2.2.jacobianUpdates = st.jacobianUpdates := by
+  unfold stagePre
+  split
+  · simp
+  · split <;> simp
+
+theorem stagesGo_stats (Y J Lo Up : Mat α) (h : α) (n stage : Nat) (K : Array (Mat α)) (ynew : Mat α)
+    (st : Stats) :
+    (stagesGo s p kc Y J Lo Up h n stage K ynew st).2.2.solves = st.solves + n ∧
+    (stagesGo s p kc Y J Lo Up h n stage K ynew st).2.2.decompositions = st.decompositions ∧
+    (stagesGo s p kc Y J Lo Up h n stage K ynew st).2.2.numberOfSteps = st.numberOfSteps ∧
+    (stagesGo s p kc Y J Lo Up h n stage K ynew st).2.2.accepted = st.accepted ∧
+    (stagesGo s p kc Y J Lo Up h n stage K ynew st).2.2.rejected = st.rejected ∧
+    (stagesGo s p kc Y J Lo Up h n stage K ynew st).2.2.jacobianUpdates = st.jacobianUpdates := by
+  induction n generalizing stage K ynew st with
+  | zero => simp [stagesGo]
+  | succ n ih =>
+    rw [stagesGo_succ]
+    obtain ⟨h1, h2, h3, h4, h5, h6⟩ := stagePre_stats s p kc Y stage K ynew st
+    obtain ⟨i1, i2, i3, i4, i5, i6⟩ := ih (stage + 1)
+      ((stageCopy p stage (stagePre s p kc Y stage K ynew st).1).setIfInBounds stage
+          (s.linSolve J Lo Up (stageRhs p h stage (stageCopy p stage (stagePre s p kc Y stage K ynew st).1))))
+      (stagePre s p kc Y stage K ynew st).2.1
+      { (stagePre s p kc Y stage K ynew st).2.2 with
+          solves := (stagePre s p kc Y stage K ynew st).2.2.solves + 1 }
+    refine ⟨?_, ?_, ?_, ?_, ?_, ?_⟩
+    · rw [i1]; simp only; omega
+    · rw [i2]; exact h2
+    · rw [i3]; exact h3
+    · rw [i4]; exact h4
+    · rw [i5]; exact h5
+    · rw [i6]; exact h6
+
+/-! ### projections of one attempt -/
+
+theorem rosAttempt_trace (r : RState α) :
+    (rosAttempt o cs s p kc atol rtol hm r).trace = attRecord o cs s p kc atol rtol hm r :: r.trace := by
+  unfold rosAttempt; simp only []
+  split <;> try rfl
+  split <;> rfl
+
+theorem rosAttempt_ctl (r : RState α) :
+    (rosAttempt o cs s p kc atol rtol hm r).ctl = (attDecide o cs s p kc atol rtol hm r).2 := by
+  unfold rosAttempt; simp only []
+  split
+  · rename_i h; exact (ctlDecide_nan _ _ _ _ _ h).symm
+  · rename_i h; exact (ctlDecide_inf _ _ _ _ _ h).symm
+  · rfl
+  · split <;> rfl
+
+theorem rosAttempt_Y (r : RState α) :
+    (rosAttempt o cs s p kc atol rtol hm r).Y =
+      if (attDecide o cs s p kc atol rtol hm r).1 = .reject then r.Y else attYnew s p kc r := by
+  unfold rosAttempt; simp only []
+  split <;> rename_i h <;> simp only [h, reduceCtorEq, if_false, if_true]
+  split <;> rfl
+
+theorem rosAttempt_status (r : RState α) :
+    (rosAttempt o cs s p kc atol rtol hm r).status =
+      match (attDecide o cs s p kc atol rtol hm r).1 with
+      | .nan => .nanDetected | .inf => .infDetected | _ => r.status := by
+  unfold rosAttempt; simp only []
+  split <;> rename_i h <;> simp only [h]
+  split <;> rfl
+
+theorem rosAttempt_inStep (r : RState α) :
+    (rosAttempt o cs s p kc atol rtol hm r).inStep =
+      if (attDecide o cs s p kc atol rtol hm r).1 = .accept then false else r.inStep := by
+  unfold rosAttempt; simp only []
+  split <;> rename_i h <;> simp only [h, reduceCtorEq, if_false, if_true]
+  split <;> rfl
+
+theorem rosAttempt_lastAlpha (r : RState α) :
+    (rosAttempt o cs s p kc atol rtol hm r).lastAlpha = attLastAlpha s p r := by
+  unfold rosAttempt; simp only []
+  split <;> try rfl
+  split <;> rfl
+
+theorem rosAttempt_jac (r : RState α) :
+    (rosAttempt o cs s p kc atol rtol hm r).sc.jac =
+      if (attDecide o cs s p kc atol rtol hm r).1 = .reject ∧ s.la.kind.inPlace = true
+      then s.jacobian kc r.Y (fillM (attFactor s p r).1 0) else (attFactor s p r).1 := by
+  unfold rosAttempt; simp only []
+  split <;> rename_i h <;> simp only [h, reduceCtorEq, false_and, true_and, if_false]
+  split <;> simp
+
+theorem attStages_stats (r : RState α) :
+    (attStages s p kc r).2.2.solves = r.stats.solves + p.stages ∧
+    (attStages s p kc r).2.2.decompositions = r.stats.decompositions + 1 ∧
+    (attStages s p kc r).2.2.numberOfSteps = r.stats.numberOfSteps ∧
+    (attStages s p kc r).2.2.accepted = r.stats.accepted ∧
+    (attStages s p kc r).2.2.rejected = r.stats.rejected ∧
+    (attStages s p kc r).2.2.jacobianUpdates = r.stats.jacobianUpdates := by
+  unfold attStages
+  exact stagesGo_stats s p kc _ _ _ _ _ _ _ _ _ _
+
+theorem rosAttempt_stats (r : RState α) :
+    (rosAttempt o cs s p kc atol rtol hm r).stats.decompositions = r.stats.decompositions + 1 ∧
+    (rosAttempt o cs s p kc atol rtol hm r).stats.numberOfSteps = r.stats.numberOfSteps + 1 ∧
+    (rosAttempt o cs s p kc atol rtol hm r).stats.solves = r.stats.solves + p.stages ∧
+    (rosAttempt o cs s p kc atol rtol hm r).stats.accepted =
+      r.stats.accepted + (if (attDecide o cs s p kc atol rtol hm r).1 = .accept then 1 else 0) ∧
+    r.stats.rejected ≤ (rosAttempt o cs s p kc atol rtol hm r).stats.rejected ∧
+    (rosAttempt o cs s p kc atol rtol hm r).stats.rejected ≤
+      r.stats.rejected + (if (attDecide o cs s p kc atol rtol hm r).1 = .reject then 1 else 0) := by
+  obtain ⟨h1, h2, h3, h4, h5, h6⟩ := attStages_stats s p kc r
+  unfold rosAttempt; simp only []
+  split <;> rename_i h <;> simp only [h, reduceCtorEq, if_false, if_true, h1, h2, h3, h4, h5, h6]
+  · simp
+  · simp
+  · simp
+  · split <;> split <;> simp
+
+
+/-! ### frame of the prologue -/
+
+theorem rosPrologue_frame (r : RState α) :
+    (rosPrologue o cs s p kc timeStep r).trace = r.trace ∧
+    (rosPrologue o cs s p kc timeStep r).Y = r.Y ∧
+    (rosPrologue o cs s p kc timeStep r).ctl.t = r.ctl.t ∧
+    (rosPrologue o cs s p kc timeStep r).ctl.rejectLast = r.ctl.rejectLast ∧
+    (rosPrologue o cs s p kc timeStep r).ctl.rejectMore = r.ctl.rejectMore ∧
+    (rosPrologue o cs s p kc timeStep r).stats.decompositions = r.stats.decompositions ∧
+    (rosPrologue o cs s p kc timeStep r).stats.numberOfSteps = r.stats.numberOfSteps ∧
+    (rosPrologue o cs s p kc timeStep r).stats.solves = r.stats.solves ∧
+    (rosPrologue o cs s p kc timeStep r).stats.accepted = r.stats.accepted ∧
+    (rosPrologue o cs s p kc timeStep r).stats.rejected = r.stats.rejected := by
+  have h := rosPrologue_cases o cs s p kc timeStep r
+  generalize rosPrologue o cs s p kc timeStep r = r' at h ⊢
+  cases h <;> simp [startStep]
+
+/-- the prologue either keeps the status or sets one of three terminal statuses -/
+theorem rosPrologue_status (r : RState α) :
+    (rosPrologue o cs s p kc timeStep r).status = r.status ∨
+    (r.inStep = false ∧ (rosPrologue o cs s p kc timeStep r).trace = r.trace ∧
+      ((rosPrologue o cs s p kc timeStep r).status = .converged ∨
+       (rosPrologue o cs s p kc timeStep r).status = .convergenceExceededMaxSteps ∨
+       (rosPrologue o cs s p kc timeStep r).status = .stepSizeTooSmall)) := by
+  have h := rosPrologue_cases o cs s p kc timeStep r
+  generalize rosPrologue o cs s p kc timeStep r = r' at h ⊢
+  cases h <;> simp [startStep, *]
+
+/-- an attempt is only ever made inside a step -/
+theorem rosPrologue_running_inStep (r : RState α)
+    (h : (rosPrologue o cs s p kc timeStep r).status = .running) :
+    (rosPrologue o cs s p kc timeStep r).inStep = true := by
+  have hc := rosPrologue_cases o cs s p kc timeStep r
+  generalize rosPrologue o cs s p kc timeStep r = r' at hc h ⊢
+  cases hc <;> simp_all [startStep]
+
+/-! ### induction along `rosLoop` -/
+
+theorem rosLoop_zero (r : RState α) :
+    rosLoop o cs s p kc atol rtol timeStep hm 0 r =
+      if r.status = .running then { r with status := .outOfFuel } else r := by
+  rw [rosLoop, status_beq_running]; by_cases h : r.status = .running <;> simp [h]
+
+theorem rosLoop_succ (fuel : Nat) (r : RState α) :
+    rosLoop o cs s p kc atol rtol timeStep hm (fuel + 1) r =
+      if r.status = .running
+      then rosLoop o cs s p kc atol rtol timeStep hm fuel (rosStep o cs s p kc atol rtol timeStep hm r)
+      else r := by
+  rw [rosLoop, status_bne_running]; by_cases h : r.status = .running <;> simp [h]
+
+/-- invariants of `rosStep` (from running states) that survive the `outOfFuel` marking hold at the
+    end of `rosLoop` -/
+theorem rosLoop_inv (P : RState α → Prop)
+    (hstep : ∀ r, r.status = .running → P r → P (rosStep o cs s p kc atol rtol timeStep hm r))
+    (hout : ∀ r, r.status = .running → P r → P { r with status := .outOfFuel })
+    (fuel : Nat) (r : RState α) (h : P r) : P (rosLoop o cs s p kc atol rtol timeStep hm fuel r) := by
+  induction fuel generalizing r with
+  | zero =>
+    rw [rosLoop_zero]; split
+    · exact hout r ‹_› h
+    · exact h
+  | succ n ih =>
+    rw [rosLoop_succ]; split
+    · exact ih _ (hstep r ‹_› h)
+    · exact h
+
+/-- invariants of the prologue and of an attempt are invariants of `rosStep` -/
+theorem rosStep_inv (P : RState α → Prop) (r : RState α)
+    (hpro : P r → P (rosPrologue o cs s p kc timeStep r))
+    (hatt : ∀ r', r'.status = .running → r'.inStep = true → P r' →
+      P (rosAttempt o cs s p kc atol rtol hm r'))
+    (h : P r) : P (rosStep o cs s p kc atol rtol timeStep hm r) := by
+  rw [rosStep_eq]; split
+  · exact hatt _ ‹_› (rosPrologue_running_inStep o cs s p kc timeStep r ‹_›) (hpro h)
+  · exact hpro h
+
+/-! ### C06: counters -/
+
+/-- the counters agree with the ghost trace -/
+def CountInv (r : RState α) : Prop :=
+  r.stats.decompositions = r.trace.length ∧ r.stats.numberOfSteps = r.trace.length ∧
+  r.stats.solves = p.stages * r.trace.length ∧
+  r.stats.accepted = (r.trace.filter (·.accepted)).length ∧
+  r.stats.rejected ≤ r.trace.length - r.stats.accepted
+
+theorem CountInv_attempt (r : RState α) (h : CountInv p r) :
+    CountInv p (rosAttempt o cs s p kc atol rtol hm r) := by
+  obtain ⟨a1, a2, a3, a4, a5, a6⟩ := rosAttempt_stats o cs s p kc atol rtol hm r
+  obtain ⟨c1, c2, c3, c4, c5⟩ := h
+  have hf : (r.trace.filter (·.accepted)).length ≤ r.trace.length := List.length_filter_le _ _
+  unfold CountInv
+  rw [rosAttempt_trace, a1, a2, a3, a4]
+  simp only [List.length_cons, List.filter_cons, attRecord, decision_beq_accept]
+  refine ⟨by omega, by omega, by rw [c3, Nat.mul_add, Nat.mul_one], ?_, ?_⟩
+  · by_cases hd : (attDecide o cs s p kc atol rtol hm r).1 = .accept <;> simp [hd, c4]
+  · by_cases hd : (attDecide o cs s p kc atol rtol hm r).1 = .accept
+    · simp only [hd, reduceCtorEq, if_true, if_false] at a6 ⊢
+      omega
+    · simp only [hd, if_false] at a6 ⊢
+      split at a6 <;> omega
+
+theorem CountInv_prologue (r : RState α) (h : CountInv p r) :
+    CountInv p (rosPrologue o cs s p kc timeStep r) := by
+  obtain ⟨f1, _, _, _, _, f6, f7, f8, f9, f10⟩ := rosPrologue_frame o cs s p kc timeStep r
+  unfold CountInv at h ⊢
+  rw [f1, f6, f7, f8, f9, f10]; exact h
+
+theorem CountInv_loop (fuel : Nat) (r : RState α) (h : CountInv p r) :
+    CountInv p (rosLoop o cs s p kc atol rtol timeStep hm fuel r) :=
+  rosLoop_inv o cs s p kc atol rtol timeStep hm (CountInv p)
+    (fun r _ h => rosStep_inv o cs s p kc atol rtol timeStep hm _ r
+      (CountInv_prologue o cs s p kc timeStep r) (fun r' _ _ => CountInv_attempt o cs s p kc atol rtol hm r') h)
+    (fun _ _ h => h) fuel r h
+
+
+/-! ### `rosSolve` = initial state, loop, packaging -/
+
+/-- the state in which `rosSolve` enters the loop -/
+def rosInit (h : α) (Y : Mat α) (sc : Scratch α) : RState α :=
+  { Y, ctl := { t := 0, h, rejectLast := false, rejectMore := false }, stats := {},
+    status := .running, inStep := false, lastAlpha := 0, sc, trace := [] }
+
+theorem rosSolve_eq (Y : Mat α) (sc : Scratch α) (fuel : Nat) :
+    rosSolve o cs s p kc atol rtol timeStep Y sc fuel =
+      let r := rosLoop o cs s p kc atol rtol timeStep (hmaxEff o p timeStep) fuel
+                 (rosInit (initialH o cs p timeStep) Y sc)
+      { status := r.status, finalTime := r.ctl.t, stats := r.stats, Y := r.Y, sc := r.sc,
+        trace := r.trace.reverse } := rfl
+
+/-! ### the trace only grows, by at most one attempt per iteration -/
+
+theorem rosStep_no_attempt (r : RState α)
+    (h : (rosPrologue o cs s p kc timeStep r).status ≠ .running) :
+    rosStep o cs s p kc atol rtol timeStep hm r = rosPrologue o cs s p kc timeStep r := by
+  rw [rosStep_eq, if_neg h]
+
+theorem rosStep_attempt (r : RState α)
+    (h : (rosPrologue o cs s p kc timeStep r).status = .running) :
+    rosStep o cs s p kc atol rtol timeStep hm r =
+      rosAttempt o cs s p kc atol rtol hm (rosPrologue o cs s p kc timeStep r) := by
+  rw [rosStep_eq, if_pos h]
+
+/-- an attempt was recorded iff the prologue left the status `running` -/
+theorem rosStep_trace (r : RState α) :
+    (rosStep o cs s p kc atol rtol timeStep hm r).trace =
+      if (rosPrologue o cs s p kc timeStep r).status = .running
+      then attRecord o cs s p kc atol rtol hm (rosPrologue o cs s p kc timeStep r) :: r.trace
+      else r.trace := by
+  rw [rosStep_eq]; split
+  · rw [rosAttempt_trace, (rosPrologue_frame o cs s p kc timeStep r).1]
+  · exact (rosPrologue_frame o cs s p kc timeStep r).1
+
+theorem rosStep_trace_cons (r : RState α) (att : Attempt α)
+    (h : (rosStep o cs s p kc atol rtol timeStep hm r).trace = att :: r.trace) :
+    (rosPrologue o cs s p kc timeStep r).status = .running ∧
+    att = attRecord o cs s p kc atol rtol hm (rosPrologue o cs s p kc timeStep r) := by
+  rw [rosStep_trace] at h
+  split at h
+  · exact ⟨‹_›, by injection h with h1 _; exact h1.symm⟩
+  · exact absurd h.symm (List.cons_ne_self _ _)
+
+/-- the status after an attempt is `running`, `nanDetected` or `infDetected` -/
+theorem rosAttempt_status_cases (r : RState α) (hr : r.status = .running) :
+    ((rosAttempt o cs s p kc atol rtol hm r).status = .running ∧
+      ((attDecide o cs s p kc atol rtol hm r).1 = .accept ∨ (attDecide o cs s p kc atol rtol hm r).1 = .reject)) ∨
+    ((rosAttempt o cs s p kc atol rtol hm r).status = .nanDetected ∧
+      (attDecide o cs s p kc atol rtol hm r).1 = .nan) ∨
+    ((rosAttempt o cs s p kc atol rtol hm r).status = .infDetected ∧
+      (attDecide o cs s p kc atol rtol hm r).1 = .inf) := by
+  rw [rosAttempt_status]
+  cases hd : (attDecide o cs s p kc atol rtol hm r).1 <;> simp [hr]
+
+/-! ### C07: the `h` of an attempt; `max_steps` -/
+
+/-- the step size used by the attempt of this iteration -/
+theorem rosStep_att_h (r : RState α) (hr : r.status = .running) (att : Attempt α)
+    (h : (rosStep o cs s p kc atol rtol timeStep hm r).trace = att :: r.trace) :
+    att.h = if r.inStep then r.ctl.h else cmin o r.ctl.h (o.abs (timeStep - r.ctl.t)) := by
+  obtain ⟨hs, rfl⟩ := rosStep_trace_cons o cs s p kc atol rtol timeStep hm r att h
+  have hc := rosPrologue_cases o cs s p kc timeStep r
+  generalize rosPrologue o cs s p kc timeStep r = r' at hc hs ⊢
+  cases hc <;> simp_all [attRecord, startStep]
+
+/-- no new step is started once `numberOfSteps > maxSteps` -/
+theorem rosStep_max_steps (r : RState α) (hi : r.inStep = false)
+    (ht : o.le (r.ctl.t - timeStep + p.roundOff) 0 = true) (hn : r.stats.numberOfSteps > p.maxSteps) :
+    rosStep o cs s p kc atol rtol timeStep hm r = { r with status := .convergenceExceededMaxSteps } := by
+  have : rosPrologue o cs s p kc timeStep r = { r with status := .convergenceExceededMaxSteps } := by
+    unfold rosPrologue; simp [hi, ht, hn]
+  rw [rosStep_no_attempt] <;> simp [this]
+
+/-! ### C06: time, state, outcome -/
+
+/-- the sum of the accepted step sizes of a (newest-first) trace, starting from `t0` -/
+def accTime (t0 : α) : List (Attempt α) → α
+  | [] => t0
+  | a :: tr => if a.accepted then accTime t0 tr + a.h else accTime t0 tr
+
+theorem accTime_eq_foldl (t0 : α) (tr : List (Attempt α)) :
+    accTime t0 tr = ((tr.reverse).filter (·.accepted)).foldl (fun t a => t + a.h) t0 := by
+  induction tr with
+  | nil => rfl
+  | cons a tr ih =>
+    rw [accTime, List.reverse_cons, List.filter_append, List.foldl_append, ← ih]
+    cases ha : a.accepted <;> simp [ha]
+
+theorem time_attempt (t0 : α) (r : RState α) (h : r.ctl.t = accTime t0 r.trace) :
+    (rosAttempt o cs s p kc atol rtol hm r).ctl.t =
+      accTime t0 (rosAttempt o cs s p kc atol rtol hm r).trace := by
+  rw [rosAttempt_trace, rosAttempt_ctl, attDecide, ctlDecide_t, accTime]
+  simp only [attRecord, attDecide, decision_beq_accept, decide_eq_true_eq, h]
+
+theorem time_loop (t0 : α) (fuel : Nat) (r : RState α) (h : r.ctl.t = accTime t0 r.trace) :
+    (rosLoop o cs s p kc atol rtol timeStep hm fuel r).ctl.t =
+      accTime t0 (rosLoop o cs s p kc atol rtol timeStep hm fuel r).trace :=
+  rosLoop_inv o cs s p kc atol rtol timeStep hm (fun r => r.ctl.t = accTime t0 r.trace)
+    (fun r _ h => rosStep_inv o cs s p kc atol rtol timeStep hm _ r
+      (fun h => by
+        obtain ⟨f1, _, f3, _⟩ := rosPrologue_frame o cs s p kc timeStep r
+        rw [f1, f3]; exact h)
+      (fun r' _ _ => time_attempt o cs s p kc atol rtol hm t0 r') h)
+    (fun _ _ h => h) fuel r h
+
+/-- `Y` changes only on acceptance (or at the `nan`/`inf` exits, which swap `Y` and `Ynew`) -/
+theorem rosStep_Y (r : RState α) :
+    (rosStep o cs s p kc atol rtol timeStep hm r).Y = r.Y ∨
+    (rosStep o cs s p kc atol rtol timeStep hm r).status = .nanDetected ∨
+    (rosStep o cs s p kc atol rtol timeStep hm r).status = .infDetected ∨
+    ∃ att, (rosStep o cs s p kc atol rtol timeStep hm r).trace = att :: r.trace ∧ att.accepted = true := by
+  obtain ⟨f1, f2, _⟩ := rosPrologue_frame o cs s p kc timeStep r
+  by_cases hs : (rosPrologue o cs s p kc timeStep r).status = .running
+  · rw [rosStep_trace, if_pos hs, rosStep_attempt _ _ _ _ _ _ _ _ _ _ hs]
+    rcases rosAttempt_status_cases o cs s p kc atol rtol hm _ hs with ⟨_, hd | hd⟩ | ⟨h1, _⟩ | ⟨h1, _⟩
+    · right; right; right
+      exact ⟨_, rfl, by simp only [attRecord, hd]; rfl⟩
+    · left; rw [rosAttempt_Y, if_pos hd, f2]
+    · right; left; exact h1
+    · right; right; left; exact h1
+  · left; rw [rosStep_no_attempt _ _ _ _ _ _ _ _ _ _ hs, f2]
+
+/-- `converged` is only ever set by the outer loop test -/
+def ConvInv (r : RState α) : Prop :=
+  r.status = .converged → o.le (r.ctl.t - timeStep + p.roundOff) 0 = false
+
+theorem ConvInv_step (r : RState α) (hr : r.status = .running) :
+    ConvInv o p timeStep (rosStep o cs s p kc atol rtol timeStep hm r) := by
+  by_cases hs : (rosPrologue o cs s p kc timeStep r).status = .running
+  · intro hc
+    rw [rosStep_attempt _ _ _ _ _ _ _ _ _ _ hs] at hc
+    rcases rosAttempt_status_cases o cs s p kc atol rtol hm _ hs with ⟨h1, _⟩ | ⟨h1, _⟩ | ⟨h1, _⟩ <;>
+      rw [h1] at hc <;> cases hc
+  · rw [rosStep_no_attempt _ _ _ _ _ _ _ _ _ _ hs]
+    have hc := rosPrologue_cases o cs s p kc timeStep r
+    generalize rosPrologue o cs s p kc timeStep r = r' at hc hs ⊢
+    cases hc <;> simp_all [ConvInv, startStep]
+
+theorem ConvInv_loop (fuel : Nat) (r : RState α) (h : ConvInv o p timeStep r) :
+    ConvInv o p timeStep (rosLoop o cs s p kc atol rtol timeStep hm fuel r) :=
+  rosLoop_inv o cs s p kc atol rtol timeStep hm (ConvInv o p timeStep)
+    (fun r hr _ => ConvInv_step o cs s p kc atol rtol timeStep hm r hr)
+    (fun _ _ _ => by intro hc; cases hc) fuel r h
+
+/-! ### fuel -/
+
+theorem rosLoop_not_running (fuel : Nat) (r : RState α) (h : r.status ≠ .running) :
+    rosLoop o cs s p kc atol rtol timeStep hm fuel r = r := by
+  cases fuel
+  · rw [rosLoop_zero, if_neg h]
+  · rw [rosLoop_succ, if_neg h]
+
+theorem rosStep_status_ne_outOfFuel (r : RState α) (hr : r.status = .running) :
+    (rosStep o cs s p kc atol rtol timeStep hm r).status ≠ .outOfFuel := by
+  by_cases hs : (rosPrologue o cs s p kc timeStep r).status = .running
+  · rw [rosStep_attempt _ _ _ _ _ _ _ _ _ _ hs]
+    rcases rosAttempt_status_cases o cs s p kc atol rtol hm _ hs with ⟨h1, _⟩ | ⟨h1, _⟩ | ⟨h1, _⟩ <;>
+      rw [h1] <;> simp
+  · rw [rosStep_no_attempt _ _ _ _ _ _ _ _ _ _ hs]
+    rcases rosPrologue_status o cs s p kc timeStep r with h1 | ⟨_, _, h1 | h1 | h1⟩ <;> rw [h1] <;> simp [hr]
+
+/-- an iteration that leaves the status `running` has recorded exactly one attempt -/
+theorem rosStep_running_trace (r : RState α)
+    (h2 : (rosStep o cs s p kc atol rtol timeStep hm r).status = .running) :
+    (rosStep o cs s p kc atol rtol timeStep hm r).trace.length = r.trace.length + 1 := by
+  by_cases hs : (rosPrologue o cs s p kc timeStep r).status = .running
+  · rw [rosStep_trace, if_pos hs]; rfl
+  · rw [rosStep_no_attempt _ _ _ _ _ _ _ _ _ _ hs] at h2; exact absurd h2 hs
+
+/-- `outOfFuel` arises only when every one of the `fuel` iterations recorded an attempt -/
+theorem rosLoop_outOfFuel (fuel : Nat) (r : RState α) (hr : r.status ≠ .outOfFuel)
+    (h : (rosLoop o cs s p kc atol rtol timeStep hm fuel r).status = .outOfFuel) :
+    (rosLoop o cs s p kc atol rtol timeStep hm fuel r).trace.length = r.trace.length + fuel := by
+  induction fuel generalizing r with
+  | zero =>
+    rw [rosLoop_zero] at h ⊢
+    split
+    · rfl
+    · rename_i h1; rw [if_neg h1] at h; exact absurd h hr
+  | succ n ih =>
+    rw [rosLoop_succ] at h ⊢
+    by_cases h1 : r.status = .running
+    · rw [if_pos h1] at h ⊢
+      have h3 := rosStep_status_ne_outOfFuel o cs s p kc atol rtol timeStep hm r h1
+      by_cases h2 : (rosStep o cs s p kc atol rtol timeStep hm r).status = .running
+      · rw [ih _ h3 h, rosStep_running_trace o cs s p kc atol rtol timeStep hm r h2]; omega
+      · rw [rosLoop_not_running _ _ _ _ _ _ _ _ _ _ _ h2] at h; exact absurd h h3
+    · rw [if_neg h1] at h; exact absurd h hr
+
+
 end Step
+
+/-! ### C05: the diagonal shift -/
+
+section Ext
+variable {α : Type} [OfNat α 0]
+theorem arr_ext_rd {A B : Array α} (hs : A.size = B.size) (h : ∀ j, j < A.size → rd A j = rd B j) :
+    A = B := by
+  apply Array.ext hs
+  intro j h1 h2
+  have := h j h1
+  simpa [rd, Array.getD, h1, h2] using this
+end Ext
+
+section Shift
+variable {K : Type} [Field K]
+
+/-- `Jr[i] += a` -/
+def bumpRow (Jr : Array K) (i : Nat) (a : K) : Array K := wr Jr i (rd Jr i + a)
+
+/-- the shift of one cell: `Jr[i] += a` for every `i` of the diagonal list -/
+def shiftRow (d : List Nat) (Jr : Array K) (a : K) : Array K := d.foldl (fun Jr i => bumpRow Jr i a) Jr
+
+theorem alphaMinusJacobian_eq (s : SolverCfg K) (J : Mat K) (a : K) :
+    s.alphaMinusJacobian J a = J.map fun Jr => shiftRow s.diag Jr a := rfl
+
+@[simp] theorem bumpRow_size (Jr : Array K) (i : Nat) (a : K) : (bumpRow Jr i a).size = Jr.size := by
+  simp [bumpRow]
+
+theorem rd_bumpRow (Jr : Array K) (i j : Nat) (a : K) :
+    rd (bumpRow Jr i a) j = if i = j ∧ i < Jr.size then rd Jr i + a else rd Jr j := by
+  simp [bumpRow, rd_wr]
+
+theorem bumpRow_comm (Jr : Array K) (i j : Nat) (a b : K) :
+    bumpRow (bumpRow Jr i a) j b = bumpRow (bumpRow Jr j b) i a := by
+  apply arr_ext_rd (by simp)
+  intro k _
+  simp only [rd_bumpRow, bumpRow_size]
+  by_cases hij : i = j
+  · subst hij
+    by_cases hk : i = k
+    · subst hk
+      by_cases hs : i < Jr.size <;> simp [hs, add_right_comm]
+    · simp [hk]
+  · have hji : ¬ j = i := fun h => hij h.symm
+    by_cases hk : i = k
+    · subst hk; simp [hji]
+    · by_cases hk' : j = k
+      · subst hk'; simp [hij]
+      · simp [hk, hk']
+
+theorem bumpRow_bumpRow (Jr : Array K) (i : Nat) (a b : K) :
+    bumpRow (bumpRow Jr i a) i b = bumpRow Jr i (a + b) := by
+  apply arr_ext_rd (by simp)
+  intro k _
+  simp only [rd_bumpRow, bumpRow_size]
+  by_cases hk : i = k
+  · subst hk
+    by_cases hs : i < Jr.size <;> simp [hs, add_assoc]
+  · simp [hk]
+
+theorem bumpRow_zero (Jr : Array K) (i : Nat) : bumpRow Jr i 0 = Jr := by
+  apply arr_ext_rd (by simp)
+  intro k _
+  simp only [rd_bumpRow]
+  by_cases hk : i = k
+  · subst hk; simp
+  · simp [hk]
+
+theorem shiftRow_cons (i : Nat) (d : List Nat) (Jr : Array K) (a : K) :
+    shiftRow (i :: d) Jr a = shiftRow d (bumpRow Jr i a) a := rfl
+
+theorem shiftRow_bumpRow (d : List Nat) (Jr : Array K) (i : Nat) (a b : K) :
+    shiftRow d (bumpRow Jr i b) a = bumpRow (shiftRow d Jr a) i b := by
+  induction d generalizing Jr with
+  | nil => rfl
+  | cons j d ih => rw [shiftRow_cons, shiftRow_cons, bumpRow_comm, ih]
+
+/-- two successive shifts of one cell add up — for every diagonal list (no `Nodup`, no range
+    assumption: out-of-range writes are dropped both times, duplicates shift twice both times) -/
+theorem shiftRow_shiftRow (d : List Nat) (Jr : Array K) (a b : K) :
+    shiftRow d (shiftRow d Jr a) b = shiftRow d Jr (a + b) := by
+  induction d generalizing Jr with
+  | nil => rfl
+  | cons i d ih =>
+    rw [shiftRow_cons, shiftRow_cons, shiftRow_cons, ← shiftRow_bumpRow, bumpRow_bumpRow, ih]
+
+theorem shiftRow_zero (d : List Nat) (Jr : Array K) : shiftRow d Jr 0 = Jr := by
+  induction d generalizing Jr with
+  | nil => rfl
+  | cons i d ih => rw [shiftRow_cons, bumpRow_zero, ih]
+
+/-- **the exact shift semantics**: shifting by `a` and then by `b` is shifting by `a + b` -/
+theorem alphaMinusJacobian_add (s : SolverCfg K) (J : Mat K) (a b : K) :
+    s.alphaMinusJacobian (s.alphaMinusJacobian J a) b = s.alphaMinusJacobian J (a + b) := by
+  simp only [alphaMinusJacobian_eq, Array.map_map]
+  congr 1; funext Jr
+  exact shiftRow_shiftRow _ _ _ _
+
+theorem alphaMinusJacobian_zero (s : SolverCfg K) (J : Mat K) : s.alphaMinusJacobian J 0 = J := by
+  simp only [alphaMinusJacobian_eq, shiftRow_zero]
+  simp
+
+theorem shiftRow_size (d : List Nat) (Jr : Array K) (a : K) : (shiftRow d Jr a).size = Jr.size := by
+  induction d generalizing Jr with
+  | nil => rfl
+  | cons i d ih => rw [shiftRow_cons, ih, bumpRow_size]
+
+/-- entry-wise meaning of the shift for a duplicate-free diagonal list: the diagonal ranks (in
+    range) get `+ a`, every other rank is unchanged -/
+theorem rd_shiftRow (d : List Nat) (hd : d.Nodup) (Jr : Array K) (a : K) (j : Nat) :
+    rd (shiftRow d Jr a) j = if j ∈ d ∧ j < Jr.size then rd Jr j + a else rd Jr j := by
+  induction d generalizing Jr with
+  | nil => simp [shiftRow]
+  | cons i d ih =>
+    obtain ⟨hi, hd'⟩ := List.nodup_cons.mp hd
+    rw [shiftRow_cons, ih hd', bumpRow_size, rd_bumpRow]
+    by_cases hij : i = j
+    · subst hij
+      by_cases hs : i < Jr.size <;> simp [hi, hs]
+    · have : ¬ j = i := fun h => hij h.symm
+      simp [hij, this]
+
+/-- the non-in-place factorisations leave the Jacobian untouched -/
+theorem factor_fst_of_not_inPlace (s : SolverCfg K) (h : s.la.kind.inPlace = false) (J Lo Up : Mat K) :
+    (s.factor J Lo Up).1 = J := by
+  unfold SolverCfg.factor
+  cases hk : s.la.kind <;> simp_all [LUKind.inPlace]
+
+end Shift
+/-! ### C05: the invariant of the retry loop -/
+
+section C05
+variable {K : Type} [Field K]
+variable (o : Ops K) (cs : Consts K) (s : SolverCfg K) (p : RosParams K) (kc : Mat K)
+    (atol : Array K) (rtol : K) (timeStep hm : K)
+
+/-- the (negative) Jacobian assembled at `Y` into a zeroed buffer of the shape of `B` -/
+def jac0 (Y B : Mat K) : Mat K := s.jacobian kc Y (fillM B 0)
+
+/-- what `state.jacobian_` holds between the attempts of one step: for the separate-L/U variants the
+    Jacobian of the step shifted by the total shift `lastAlpha` applied so far, for the in-place
+    variants the freshly regenerated Jacobian -/
+def JacHolds (r : RState K) (B : Mat K) : Prop :=
+  r.sc.jac = if s.la.kind.inPlace then jac0 s kc r.Y B
+             else s.alphaMinusJacobian (jac0 s kc r.Y B) r.lastAlpha
+
+def ShiftInv (r : RState K) : Prop :=
+  r.status = .running → r.inStep = true → ∃ B, JacHolds s kc r B
+
+/-- the matrix handed to `Factor` is `J0` shifted by exactly `1/(h γ)`, whatever was applied before -/
+theorem attMatrix_of_JacHolds (r : RState K) (B : Mat K) (hj : JacHolds s kc r B) :
+    attMatrix s p r = s.alphaMinusJacobian (jac0 s kc r.Y B) (1 / (r.ctl.h * p.gamma0)) := by
+  unfold JacHolds at hj
+  unfold attMatrix attAlpha attAlpha0
+  rw [hj]
+  cases hip : s.la.kind.inPlace
+  · simp only [Bool.false_eq_true, if_false]
+    rw [alphaMinusJacobian_add, add_sub_cancel]
+  · simp only [if_true]
+
+theorem JacHolds_startStep (r : RState K) :
+    JacHolds s kc (startStep o s kc timeStep r) r.sc.jac := by
+  unfold JacHolds startStep jac0
+  cases hip : s.la.kind.inPlace
+  · simp only [Bool.false_eq_true, if_false]; rw [alphaMinusJacobian_zero]
+  · simp only [if_true]
+
+theorem ShiftInv_prologue (r : RState K) (h : ShiftInv s kc r) :
+    ShiftInv s kc (rosPrologue o cs s p kc timeStep r) := by
+  have hc := rosPrologue_cases o cs s p kc timeStep r
+  generalize rosPrologue o cs s p kc timeStep r = r' at hc ⊢
+  cases hc with
+  | inStep _ => exact h
+  | converged => intro h1; cases h1
+  | maxSteps => intro h1; cases h1
+  | tooSmall => intro h1; cases h1
+  | start => intro _ _; exact ⟨_, JacHolds_startStep o s kc timeStep r⟩
+
+theorem ShiftInv_attempt (r : RState K) (hr : r.status = .running) (h : ShiftInv s kc r) :
+    ShiftInv s kc (rosAttempt o cs s p kc atol rtol hm r) := by
+  intro h1 h2
+  rw [rosAttempt_inStep] at h2
+  rcases rosAttempt_status_cases o cs s p kc atol rtol hm r hr with ⟨_, hd | hd⟩ | ⟨h3, _⟩ | ⟨h3, _⟩
+  · simp [hd] at h2
+  · simp only [hd, reduceCtorEq, if_false] at h2
+    obtain ⟨B, hB⟩ := h hr h2
+    have hm := attMatrix_of_JacHolds s p kc r B hB
+    unfold JacHolds at hB ⊢
+    rw [rosAttempt_jac, rosAttempt_Y, rosAttempt_lastAlpha, if_pos hd]
+    cases hip : s.la.kind.inPlace
+    · refine ⟨B, ?_⟩
+      simp only [hd, Bool.false_eq_true, and_false, if_false]
+      unfold attFactor
+      rw [factor_fst_of_not_inPlace s hip, hm]
+      simp [attLastAlpha, hip, attAlpha0]
+    · exact ⟨(attFactor s p r).1, by simp [hd, jac0]⟩
+  · rw [h3] at h1; cases h1
+  · rw [h3] at h1; cases h1
+
+/-- an attempt's matrix is a genuine `(1/(hγ))·I − J(Y)` for the recorded `h` -/
+def Genuine (att : Attempt K) : Prop :=
+  ∃ Y B, att.matrix = s.alphaMinusJacobian (jac0 s kc Y B) (1 / (att.h * p.gamma0))
+
+/-- one iteration, precise form: the matrix of the recorded attempt is the Jacobian at the *current*
+    solution `r.Y`, shifted by `1/(h γ)`; when the iteration starts a new step the buffer is `r.sc.jac` -/
+theorem C05_step (r : RState K) (hr : r.status = .running) (hinv : ShiftInv s kc r) (att : Attempt K)
+    (h : (rosStep o cs s p kc atol rtol timeStep hm r).trace = att :: r.trace) :
+    ∃ B, att.matrix = s.alphaMinusJacobian (s.jacobian kc r.Y (fillM B 0)) (1 / (att.h * p.gamma0)) ∧
+         (r.inStep = false → B = r.sc.jac) := by
+  obtain ⟨hs, rfl⟩ := rosStep_trace_cons o cs s p kc atol rtol timeStep hm r att h
+  have hc := rosPrologue_cases o cs s p kc timeStep r
+  generalize rosPrologue o cs s p kc timeStep r = r' at hc hs ⊢
+  cases hc with
+  | inStep hi =>
+    obtain ⟨B, hB⟩ := hinv hr hi
+    exact ⟨B, attMatrix_of_JacHolds s p kc r B hB, by simp [hi]⟩
+  | converged => cases hs
+  | maxSteps => cases hs
+  | tooSmall => cases hs
+  | start =>
+    exact ⟨r.sc.jac, attMatrix_of_JacHolds s p kc _ _ (JacHolds_startStep o s kc timeStep r), fun _ => rfl⟩
+
+/-- invariant for the whole trace -/
+def C05Inv (r : RState K) : Prop := ShiftInv s kc r ∧ ∀ att ∈ r.trace, Genuine s p kc att
+
+theorem C05Inv_step (r : RState K) (hr : r.status = .running) (h : C05Inv s p kc r) :
+    C05Inv s p kc (rosStep o cs s p kc atol rtol timeStep hm r) := by
+  refine ⟨?_, ?_⟩
+  · exact rosStep_inv o cs s p kc atol rtol timeStep hm (ShiftInv s kc) r
+      (ShiftInv_prologue o cs s p kc timeStep r)
+      (fun r' h1 _ => ShiftInv_attempt o cs s p kc atol rtol hm r' h1) h.1
+  · intro att hatt
+    rw [rosStep_trace] at hatt
+    split at hatt
+    · rcases List.mem_cons.mp hatt with h1 | h1
+      · have h2 : (rosStep o cs s p kc atol rtol timeStep hm r).trace = att :: r.trace := by
+          rw [rosStep_trace, if_pos ‹_›, h1]
+        obtain ⟨B, hB, _⟩ := C05_step o cs s p kc atol rtol timeStep hm r hr h.1 att h2
+        exact ⟨r.Y, B, hB⟩
+      · exact h.2 att h1
+    · exact h.2 att hatt
+
+theorem C05Inv_loop (fuel : Nat) (r : RState K) (h : C05Inv s p kc r) :
+    C05Inv s p kc (rosLoop o cs s p kc atol rtol timeStep hm fuel r) :=
+  rosLoop_inv o cs s p kc atol rtol timeStep hm (C05Inv s p kc)
+    (fun r hr h => C05Inv_step o cs s p kc atol rtol timeStep hm r hr h)
+    (fun _ _ h => ⟨fun h1 => (by cases h1), h.2⟩) fuel r h
+
+theorem C05Inv_init (h : K) (Y : Mat K) (sc : Scratch K) : C05Inv s p kc (rosInit h Y sc) :=
+  ⟨fun _ h2 => (by cases h2), fun _ h => (by cases h)⟩
+
+end C05
 end Micm
